@@ -121,6 +121,7 @@ func genC08(t *rapid.T) C08Case {
 }
 
 type cfgSnapshot struct {
+	nils      [6]bool // which of the six containers are nil (a struct-literal config may leave them so)
 	consts    map[string]string
 	ops       map[string]uintptr
 	keys      map[string]eval.VariableKey
@@ -147,10 +148,16 @@ func snapshotConfig(cc *eval.Config) cfgSnapshot {
 		s.options[k] = v
 	}
 	s.stateless = append([]string{}, cc.StatelessOperators...)
+	s.nils = [6]bool{cc.ConstantMap == nil, cc.OperatorMap == nil, cc.VariableKeyMap == nil, cc.CostsMap == nil, cc.CompileOptions == nil, cc.StatelessOperators == nil}
 	return s
 }
 
-func (a cfgSnapshot) diff(b cfgSnapshot) string {
+// diff compares contents; sameObject also compares which containers are nil (for before/after
+// comparisons of one and the same config - a copy may well turn nil into empty).
+func (a cfgSnapshot) diff(b cfgSnapshot, sameObject ...bool) string {
+	if len(sameObject) > 0 && sameObject[0] && a.nils != b.nils {
+		return fmt.Sprintf("nil containers (ConstantMap, OperatorMap, VariableKeyMap, CostsMap, CompileOptions, StatelessOperators) %v -> %v", a.nils, b.nils)
+	}
 	if !reflect.DeepEqual(a.consts, b.consts) {
 		return fmt.Sprintf("ConstantMap %v -> %v", a.consts, b.consts)
 	}
@@ -263,6 +270,22 @@ func checkC08(c C08Case, r *Rec) *Violation {
 		copy(withCap, cc.StatelessOperators)
 		cc.StatelessOperators = withCap
 	}
+	// a config written as a struct literal leaves what it does not need nil
+	if c.Mask%3 == 1 {
+		if len(cc.ConstantMap) == 0 {
+			cc.ConstantMap = nil
+		}
+		if len(cc.CostsMap) == 0 {
+			cc.CostsMap = nil
+		}
+		if len(cc.StatelessOperators) == 0 {
+			cc.StatelessOperators = nil
+		}
+		if len(cc.VariableKeyMap) == 0 {
+			cc.VariableKeyMap = nil
+		}
+		r.Class("empty-containers-left-nil")
+	}
 	switch c.ExtraOpts {
 	case 1:
 		cc.CompileOptions[eval.Optimize] = true
@@ -291,7 +314,7 @@ func checkC08(c C08Case, r *Rec) *Violation {
 		if v != nil {
 			return v
 		}
-		if d := base.diff(snapshotConfig(cc)); d != "" {
+		if d := base.diff(snapshotConfig(cc), true); d != "" {
 			return Violf("C08: Compile modified the caller's Config (%s): %s\nsource=%q\n%s", when, d, srcs[i], describe())
 		}
 		if prev, ok := first[i]; ok {
@@ -327,7 +350,7 @@ func checkC08(c C08Case, r *Rec) *Violation {
 				return Violf("C08: a copy (kind %d) differs from its source: %s\n%s", a.Kind, d, describe())
 			}
 			mutateConfig(cp, a.Mut)
-			if d := base.diff(snapshotConfig(cc)); d != "" {
+			if d := base.diff(snapshotConfig(cc), true); d != "" {
 				return Violf("C08: mutating a copy (kind %d, mutation %d) changed the source config: %s\n%s", a.Kind, a.Mut%7, d, describe())
 			}
 			// two sibling copies that each append to their own stateless list must not see each other
@@ -346,7 +369,7 @@ func checkC08(c C08Case, r *Rec) *Violation {
 			if !reflect.DeepEqual(sib1.StatelessOperators, want1) || !reflect.DeepEqual(sib2.StatelessOperators, want2) {
 				return Violf("C08: two copies (kind %d) of one config share their stateless list: after appending to each, they hold %v and %v, expected %v and %v\n%s", a.Kind, sib1.StatelessOperators, sib2.StatelessOperators, want1, want2, describe())
 			}
-			if d := base.diff(snapshotConfig(cc)); d != "" {
+			if d := base.diff(snapshotConfig(cc), true); d != "" {
 				return Violf("C08: appending to copies changed the source config: %s\n%s", d, describe())
 			}
 			r.Class("copy-mutated")
@@ -443,7 +466,7 @@ func checkC08(c C08Case, r *Rec) *Violation {
 	if bad != nil {
 		return bad
 	}
-	if d := base.diff(snapshotConfig(cc)); d != "" {
+	if d := base.diff(snapshotConfig(cc), true); d != "" {
 		return Violf("C08: concurrent Compile calls modified the caller's Config: %s\n%s", d, describe())
 	}
 
